@@ -24,6 +24,8 @@ VARIANTS = {
                  cflags="-O1 -g -fsanitize=fuzzer-no-link,address -fno-omit-frame-pointer",
                  ldflags="-fsanitize=fuzzer,address"),
     "fast": dict(cc="gcc", cxx="g++", cflags="-O2 -g", ldflags=""),
+    # real threads under ThreadSanitizer (C06 real-thread part)
+    "tsan": dict(cc="clang", cxx="clang++", cflags="-O1 -g -fsanitize=thread -fno-omit-frame-pointer", ldflags="-fsanitize=thread"),
 }
 COMMON_C = "-std=gnu99 -msse4.2 -DJLS_VERIF=1 -w"
 COMMON_CXX = "-std=gnu++17 -msse4.2 -DJLS_VERIF=1 -Wall -Wno-unused-function -Wno-unused-variable"
